@@ -64,4 +64,4 @@ def units(tier):
         ])
     from . import handlers, sqlunits
 
-    return [U] + handlers.units_for("C03")
+    return [U] + sqlunits.units_for("C03") + handlers.units_for("C03")
